@@ -50,6 +50,10 @@ impl Machine for Rv {
     }
 
     fn exec(&mut self, code: &[Code]) -> Exit {
+        self.exec_limit(code, 100_000)
+    }
+
+    fn exec_limit(&mut self, code: &[Code], limit: usize) -> Exit {
         let mut labels = HashMap::new();
         let mut addr_of: Vec<u64> = Vec::with_capacity(code.len());
         let mut index_of: HashMap<u64, usize> = HashMap::new();
@@ -77,7 +81,7 @@ impl Machine for Rv {
         let mut steps = 0;
         while pc < code.len() {
             steps += 1;
-            if steps > 100_000 {
+            if steps > limit {
                 return Exit::StepLimit;
             }
             let c = &code[pc];
